@@ -3,8 +3,6 @@ package files
 import (
 	"os"
 	"strings"
-
-	"github.com/jmeaster30/vore/libvore/algo"
 )
 
 type PathEntryType int
@@ -50,36 +48,29 @@ func ParsePath(path string) *Path {
 	return &Path{entries}
 }
 
+// pathMatches reports whether target matches the pattern matches, where each `*`
+// stands for any run of characters (including none) within the one path segment.
+// FIXME doesn't account for relative folders ie `./docs/examples`
 func pathMatches(target string, matches string) bool {
-	if !strings.ContainsRune(matches, '*') {
+	parts := strings.Split(matches, "*")
+	if len(parts) == 1 {
 		return target == matches
 	}
-
-	matchParts := algo.Window(algo.SplitKeep(matches, "*"), 2)
-
-	result := true
-	for _, part := range matchParts {
-		if len(part) == 1 {
-			if part[0] != "*" && target != part[0] {
-				result = false
-			}
-			break
-		} else if part[0] == "*" {
-			splitStart := strings.Index(target, part[1])
-			if splitStart == -1 {
-				target = ""
-			} else {
-				target = target[splitStart:]
-			}
-		} else if strings.HasPrefix(target, part[0]) {
-			target = strings.TrimPrefix(target, part[0])
-			// FIXME doesn't account for relative folders ie `./docs/examples`
-		} else {
-			result = false
-			break
-		}
+	// the text before the first star is a prefix of the target
+	if !strings.HasPrefix(target, parts[0]) {
+		return false
 	}
-	return result
+	target = target[len(parts[0]):]
+	// every text between two stars is taken at its leftmost occurrence in what is left
+	for _, part := range parts[1 : len(parts)-1] {
+		partStart := strings.Index(target, part)
+		if partStart == -1 {
+			return false
+		}
+		target = target[partStart+len(part):]
+	}
+	// the text after the last star is a suffix of what is left
+	return strings.HasSuffix(target, parts[len(parts)-1])
 }
 
 func directoryExists(entries []os.DirEntry, name string) bool {
